@@ -1,7 +1,9 @@
 import BigDec.Driver.C01
 import BigDec.Driver.C02
+import BigDec.Driver.C03
 import BigDec.Driver.C06
 import BigDec.Driver.C07
+import BigDec.Driver.C08
 import BigDec.Driver.C09
 import BigDec.Driver.C15
 import BigDec.Driver.C19
@@ -15,8 +17,10 @@ def dispatch (prop op : String) (args : List String) (impl : String) : Verdict :
   match prop with
   | "C01" => Driver.C01.handle op args impl
   | "C02" => Driver.C02.handle op args impl
+  | "C03" => Driver.C03.handle op args impl
   | "C06" => Driver.C06.handle op args impl
   | "C07" => Driver.C07.handle op args impl
+  | "C08" => Driver.C08.handle op args impl
   | "C09" => Driver.C09.handle op args impl
   | "C15" => Driver.C15.handle op args impl
   | "C19" => Driver.C19.handle op args impl
